@@ -244,7 +244,7 @@ func TestVerif_C10_Retry(t *testing.T) {
 	fnSendRequest = c10Transport
 	defer func() { fnSendRequest = old }()
 
-	total := r.N(len(c10Classes)*90, len(c10Classes)*3000)
+	total := r.N(len(c10Classes)*90, len(c10Classes)*4500)
 	for i := 0; i < total; i++ {
 		if !r.Mine(i) {
 			continue
